@@ -159,12 +159,13 @@ def stage_mech_oneiter(chk):
 
 
 def check_C01(chk):
-    bins = vlib.build_harness(["dbg-native"])
+    bins = vlib.build_harness(["dbg-native", "dbg-generic"])
     stage_bvref(chk, 12 if chk.thorough else 9)
     stage_mech_plainbv(chk, 14 if chk.thorough else 11)
     if chk.thorough:
         stage_layout_drift(chk, bins)
-    stage_gen_bv(chk, bins, ["plain"], 12 if chk.thorough else 10, FAMILY_THOROUGH if chk.thorough else FAMILY_QUICK)
+    # both in-word select implementations: BMI2 (native) and the portable table-driven one (generic)
+    stage_gen_bv(chk, bins, ["plain"], 12 if chk.thorough else 10, FAMILY_THOROUGH if chk.thorough else FAMILY_QUICK, variants=("dbg-native", "dbg-generic"))
     total = stage_trace(chk, bins, "plain", "TraceBV", invariants=("ObjWellFormed",), seeds=6 if chk.thorough else 1)
     chk.cov["regimes"] = total
     if not chk.violations and (total.get("long_one_hits", 0) == 0 or total.get("long_zero_hits", 0) == 0):
@@ -180,10 +181,10 @@ def sparse_widths(total):
 
 
 def check_C02(chk):
-    bins = vlib.build_harness(["dbg-native"])
+    bins = vlib.build_harness(["dbg-native", "dbg-generic"])
     stage_bvref(chk, 9)
     stage_mech_eliasfano(chk)
-    stage_gen_bv(chk, bins, ["sparse"], 12 if chk.thorough else 10, FAMILY_THOROUGH if chk.thorough else FAMILY_QUICK)
+    stage_gen_bv(chk, bins, ["sparse"], 12 if chk.thorough else 10, FAMILY_THOROUGH if chk.thorough else FAMILY_QUICK, variants=("dbg-native", "dbg-generic"))
     total = stage_trace(chk, bins, "sparse", "TraceBV", invariants=("ObjWellFormed",), seeds=5 if chk.thorough else 1)
     stage_bvref64(chk)
     total64 = stage_trace(chk, bins, "huge", "TraceBV64", extra_args=("--only", "sparse"))
